@@ -687,6 +687,8 @@ class C02(F.Check):
         idx = 0
         for i, a in enumerate(named):
             for b in named[i:]:
+                if a is not b and a.dim == b.dim and a.mag == b.mag:
+                    continue        # documented exclusion: two distinct units of identical dimension and magnitude (Hertz, Becquerel) in one expression
                 for op, mu, cx in (("*", a * b, "UnitProductT<%s, %s>" % (a.cxx, b.cxx)), ("/", a / b, "UnitQuotientT<%s, %s>" % (a.cxx, b.cxx))):
                     if op == "/" and a is b:
                         continue
